@@ -64,7 +64,15 @@ class C12:
         if rng.random() < 0.4:
             items = rng.sample(items, rng.randint(4, 12))
         rng.shuffle(items)
-        return dict(prog=prog, dom=items)
+        case = dict(prog=prog, dom=items)
+        if rng.random() < 0.4:
+            # the tree is grown: the base block is written in several `with rule_mode(query)` blocks, the rule evaluated in between.
+            # (re-entering attaches at the conditions root: the same program as long as that root is still the base rule, or only
+            #  alternatives are added at the top afterwards)
+            body = prog['body']
+            cand = [0] + [j for j in range(1, len(body)) if all(k == 'alt' for k, _ in body[j:])]
+            case['splits'] = sorted(set(rng.sample(cand, min(len(cand), rng.choice([1, 1, 2])))))
+        return case
 
     def to_coq(self, n, case):
         dom = "[" + "; ".join(f"({i}, [{'; '.join(str(b) for b in bits)}])" for i, bits in case['dom']) + "]"
@@ -104,6 +112,9 @@ class C12:
         d = collections.Counter()
         p = case['prog']
         d['depth_%d' % depth(p)] += 1
+        if case.get('splits') is not None:
+            d['grown_after_evaluation'] += 1
+            d['grown_in_%d_blocks' % (len(case['splits']) + 1)] += 1
         ns = list(nodes(p))
         d['branches'] += len(ns)
         for n in ns:
@@ -137,6 +148,14 @@ class C12:
             for j in path[:-1]:
                 n = n['body'][j][1]
             n['body'].pop(path[-1])
+            if d.get('splits') is not None:
+                nb = len(d['prog']['body'])
+                d['splits'] = sorted({min(j, nb) for j in d['splits']
+                                      if j == 0 or all(k == 'alt' for k, _ in d['prog']['body'][min(j, nb):])})
+            yield d
+        if case.get('splits') is not None:
+            d = copy.deepcopy(case)
+            d['splits'] = None
             yield d
         for j in range(len(case['dom'])):
             if len(case['dom']) > 1:
